@@ -10,6 +10,7 @@ from __future__ import annotations
 
 import ast
 import itertools
+import os
 from dataclasses import dataclass, field
 
 import z3
@@ -166,6 +167,7 @@ class Engine:
         # 2. everything, short budget; `unknown` counts as feasible
         s = z3.Solver()
         s.set("timeout", self.feas_timeout_ms)
+        s.set("rlimit", 1500000)
         for a in self.w.global_axioms():
             s.add(a)
         for p in self.st.pc:
@@ -207,6 +209,20 @@ class Engine:
                 self.binders, self.facts = saved_b, saved_f
         sig = ".".join(self.st.sig)
         oid = f"{self.func_fq}/{kind}:{clause}@L{line}/{sig}"
+        probe = os.environ.get("PYVC_PROBE")
+        if probe and oid not in self.obligations and "::" in probe and probe.split("::")[0] in oid:
+            # developer aid: at the program point of this obligation, try to prove other facts
+            # (spec-language expressions over the current frame, separated by ';;')
+            import ast as _ast
+            for n_, src in enumerate(probe.split("::", 1)[1].split(";;")):
+                self.spec_mode += 1
+                try:
+                    g = self.truthy(self.ev(_ast.parse(src.strip(), mode="eval").body))
+                finally:
+                    self.spec_mode -= 1
+                pid = f"{oid}#probe{n_}"
+                self.obligations[pid] = Obligation(pid, self.func_fq, "probe", src.strip()[:60], line, sig,
+                                                   list(self.st.pc), g, "probe")
         if oid in self.obligations:
             # same prefix re-executed on another path: already recorded
             self.st.pc.append(goal)
@@ -222,6 +238,34 @@ class Engine:
         if z3.is_true(cond):
             return
         self.oblige("safe", what, cond, line)
+
+    # ------------------------------------------------ local term normalisation
+    def acc(self, accessor, term):
+        """accessor(term), reduced when term is the constructor application (keeps terms syntactically small, so
+        that the same value is the same term on the code side and on the contract side)"""
+        if z3.is_app(term) and term.decl().kind() == z3.Z3_OP_DT_CONSTRUCTOR:
+            s = term.sort()
+            for ci in range(s.num_constructors()):
+                if s.constructor(ci).eq(term.decl()):
+                    for ai in range(s.constructor(ci).arity()):
+                        if s.accessor(ci, ai).eq(accessor):
+                            return term.arg(ai)
+        return accessor(term)
+
+    def sel(self, arr, idx):
+        """select(arr, idx), reduced over store with a syntactically equal / provably distinct literal index"""
+        cur = arr
+        while z3.is_app(cur) and cur.decl().kind() == z3.Z3_OP_STORE:
+            a, i, v = cur.children()
+            if z3.eq(i, idx):
+                return v
+            if (z3.is_int_value(i) and z3.is_int_value(idx)) or (
+                    i.decl().name().startswith("str:") and idx.decl().name().startswith("str:")
+                    if z3.is_const(i) and z3.is_const(idx) else False):
+                cur = a  # distinct literals
+                continue
+            break
+        return z3.Select(cur, idx) if cur is not arr else z3.Select(arr, idx)
 
     # ---------------------------------------------------------------- cells
     def new_cell(self, sv: SV) -> Ref:
@@ -243,13 +287,13 @@ class Engine:
         if k == "f":
             _, cls, fld = step
             _, _, accs = self.w.obj(cls)
-            return accs[fld](term), self.w.field_ty(cls, fld)
+            return self.acc(accs[fld], term), self.w.field_ty(cls, fld)
         if k == "i":
             s = self.w.sort(ty)
-            return z3.Select(s.accessor(0, 1)(term), step[1]), ty.args[0]
+            return self.sel(self.acc(s.accessor(0, 1), term), step[1]), ty.args[0]
         if k == "k":
             s = self.w.sort(ty)
-            return z3.Select(s.accessor(0, 1)(term), step[1]), ty.args[1]
+            return self.sel(self.acc(s.accessor(0, 1), term), step[1]), ty.args[1]
         if k == "some":
             s = self.w.sort(ty)
             return s.accessor(1, 0)(term), ty.args[0]
@@ -314,7 +358,8 @@ class Engine:
     # ------------------------------------------------------------ list/dict
     def lst(self, sv: SV):
         s = self.w.sort(sv.ty)
-        return s.constructor(0), s.accessor(0, 0), s.accessor(0, 1)
+        a0, a1 = s.accessor(0, 0), s.accessor(0, 1)
+        return s.constructor(0), (lambda t: self.acc(a0, t)), (lambda t: self.acc(a1, t))
 
     def list_len(self, sv: SV):
         if sv.term is None:
@@ -328,7 +373,7 @@ class Engine:
 
     def list_get(self, sv: SV, i):
         _, _, arr = self.lst(sv)
-        return z3.Select(arr(sv.term), i)
+        return self.sel(arr(sv.term), i)
 
     def mk_list(self, elty: T.Ty, n, arr) -> SV:
         t = T.List(elty)
@@ -343,7 +388,8 @@ class Engine:
 
     def dct(self, sv: SV):
         s = self.w.sort(sv.ty)
-        return s.constructor(0), s.accessor(0, 0), s.accessor(0, 1)
+        a0, a1 = s.accessor(0, 0), s.accessor(0, 1)
+        return s.constructor(0), (lambda t: self.acc(a0, t)), (lambda t: self.acc(a1, t))
 
     def empty_dict(self, kt: T.Ty, vt: T.Ty) -> SV:
         t = T.Dict(kt, vt)
@@ -375,11 +421,15 @@ class Engine:
         self.side_fact(z3.ForAll([i], z3.Implies(z3.And(0 <= i, i < size),
                                                  z3.And(z3.Select(h, z3.Select(order, i)),
                                                         pf(h, z3.Select(order, i)) == i)),
-                                 patterns=[z3.Select(order, i)]))
-        self.side_fact(z3.ForAll([k], z3.Implies(z3.Select(h, k),
-                                                 z3.And(0 <= pf(h, k), pf(h, k) < size,
-                                                        z3.Select(order, pf(h, k)) == k)),
-                                 patterns=[pf(h, k)]))
+                                 patterns=[z3.Select(order, i)], qid="dict-order"))
+        # NB: no `order[pos(k)] == k` here: it would create a new key term for every key term (an e-matching
+        # loop through every quantifier over keys); injectivity of pos gives the same information
+        self.side_fact(z3.ForAll([k], z3.Implies(z3.Select(h, k), z3.And(0 <= pf(h, k), pf(h, k) < size)),
+                                 patterns=[pf(h, k)], qid="dict-pos"))
+        k2 = z3.Const("ok2", ks)
+        self.side_fact(z3.ForAll([k, k2], z3.Implies(z3.And(z3.Select(h, k), z3.Select(h, k2),
+                                                           pf(h, k) == pf(h, k2)), k == k2),
+                                 patterns=[z3.MultiPattern(pf(h, k), pf(h, k2))], qid="dict-pos-inj"))
         return size, order, posf
 
     # -------------------------------------------------------------- coerce
